@@ -245,7 +245,7 @@ theorem same_high (op : CmpOp) (w w' k s r : Nat) (hop : unsOp op = true)
 
 /-- restricting a wrapped interval by the hull `[a, b]` of the operand: `x ∈ W[l0, u0]`, `a ≤ x ≤ b` ⟹
 `x ∈ W[max a l0, min b u0]` -/
-theorem Win_hull (m l0 u0 a b x : Nat) (hl : l0 < m) (hu : u0 < m) (hx : x < m) (hb : b < m)
+theorem Win_hull (m l0 u0 a b x : Nat) (hl : l0 < m) (hu : u0 < m) (hx : x < m)
     (hW : Win m l0 u0 x) (ha : a ≤ x) (hxb : x ≤ b) : Win m (max a l0) (min b u0) x := by
   unfold Win cd at *
   rw [Nat.max_def, Nat.min_def]
